@@ -397,6 +397,40 @@ def mate_hunt_positions(seed, n):
     out = []
     edge = lambda: rng.choice([(0, rng.randrange(8)), (7, rng.randrange(8)), (rng.randrange(8), 0), (rng.randrange(8), 7)])
     while len(out) < n:
+        if len(out) % 100 == 57:
+            # MAXIMAL MOBILITY (seeded change r6C12b: a move list cut at 128 entries): 6-9 queens and a few rooks / minor pieces for the
+            # side to move, more than 128 pseudo-legal moves in most of them, the enemy king walled in by its own men in a corner
+            g = {}
+            turn = rng.choice("wb")
+            up = (lambda c: c.upper()) if turn == "w" else (lambda c: c.lower())
+            dn = (lambda c: c.lower()) if turn == "w" else (lambda c: c.upper())
+            kr, kf = rng.choice([(7, 7), (7, 0), (0, 7), (0, 0)])
+            g[(kr, kf)] = dn("k")
+            dr, df = (-1 if kr == 7 else 1), (-1 if kf == 7 else 1)
+            for sq, ch in (((kr, kf + df), "r"), ((kr + dr, kf), "p"), ((kr + dr, kf + df), "p"), ((kr + dr, kf + 2 * df), "p")):
+                if ch == "p" and sq[0] in (0, 7):
+                    ch = "n"
+                if rng.random() < 0.85:
+                    g[sq] = dn(ch)
+            free = [(r, f) for r in range(8) for f in range(8) if (r, f) not in g and max(abs(r - kr), abs(f - kf)) > 1]
+            rng.shuffle(free)
+            g[free.pop()] = up("k")
+            men = ["q"] * rng.choice([6, 7, 8, 9]) + rng.choice([[], ["r"], ["r", "r"], ["n"], ["b", "n"]])
+            for ch in men:
+                for _ in range(60):
+                    if not free:
+                        break
+                    sq = free.pop()
+                    g[sq] = up(ch)
+                    if _attacks_sq(g, sq, up(ch), (kr, kf)):
+                        del g[sq]
+                        continue
+                    break
+            own_k = [sq for sq, ch in g.items() if ch == up("k")][0]
+            if any(ch.isupper() != (turn == "w") and ch.lower() != "k" and _attacks_sq(g, sq, ch, own_k) for sq, ch in g.items()):
+                pass        # the side to move may be in check: fine
+            out.append(board_to_fen(g, turn, None, None))
+            continue
         g = {}
         sqs = [(r, f) for r in range(8) for f in range(8)]
         rng.shuffle(sqs)
